@@ -39,6 +39,7 @@ chk = Check('C13', 'exploration',
             'scaled}; [array] systems x 6 (m,n) x sizes x every shiftindex x centres x linear{F,T} x boundary width '
             '{0, w}; [disreg] systems x 6 (m,n) x {monopole, array-linear, array-elastic} x centres at width W and 2W; '
             '[sizes] systems x 6 (m,n) x sizemults container type x amin/bmin/cmin menu x both generators; '
+            '[tilted] 3 line directions whose rotated cell is tilted x 3 sizes, linear arrays: the disregistry accumulates to exactly b; '
             '[live] 3 systems x 2 (m,n): all histories (constructor variant, optional first call, second call) over {monopole, periodicarray} x '
             '{shiftindex 0, last shiftindex, explicit shift} on ONE live object, second call compared with the same call on a fresh object.  '
             'A case is one (clause, index tuple); a construction is one generated configuration; '
@@ -994,6 +995,67 @@ def live(case):
                     return fails
     return fails
 
+
+# --------------------------------------------------------------------------
+# tilted rotated cells: for these line directions no short in-plane lattice vector is perpendicular to the line, so the
+# motion box vector of the rotated cell is not along m (xy != 0).  With linear=True the array carries the pure linear
+# field, hence the disregistry must accumulate to EXACTLY one Burgers vector over one period along m (no elastic tail).
+# (m, n) = ('y', 'z'): the line is the first box vector, the only assignment a LAMMPS-normal tilted cell admits.
+
+TILTED = [('bcc', [.5, .5, -.5], [-4, 5, -2], [1, 2, 3], 'bcc 123 mixed'), ('bcc', [.5, .5, -.5], [1, 1, -1], [1, 2, 3], 'bcc 123 screw'),
+          ('fcc', [.5, -.5, 0], [2, -5, 3], [1, 1, 1], 'fcc 111 mixed, line [2-53]')]
+TILTED_SIZES = [(1, 6, 2), (1, 4, 4), (2, 8, 2)]
+
+
+@chk.clause('tilted')
+def tilted(case):
+    name, b_uvw, xi, hkl, label = TILTED[case['sys']]
+    u, C, setting = crystal(name)
+    d = Dislocation(u, C, b_uvw, xi, hkl, conventional_setting=setting, m='y', n='z')
+    li, mo = d.lineindex, d.motionindex
+    mh, nh = np.array(d.dislsol.m), np.array(d.dislsol.n)
+    fails = []
+    smult = [0, 0, 0]
+    smult[li], smult[mo], smult[3 - li - mo] = TILTED_SIZES[case['size']]
+    try:
+        base, disl = d.periodicarray(sizemults=smult, linear=True, return_base_system=True)
+    except ValueError as e:
+        chk.note('tilted-refused')
+        return []           # documented refusal (non-integer deletion count)
+    chk.note('constructions')
+    V = np.array(disl.box.vects)
+    vb = np.array(base.box.vects)
+    tilt = abs(vb[mo] @ np.array(d.dislsol.ξ))
+    if tilt > 1e-6:
+        chk.note('tilted-cells')
+    period = abs(vb[mo] @ mh)
+    b = np.array(d.dislsol.burgers)
+    bp, dp = np.array(base.atoms.pos), np.array(disl.atoms.pos)
+    if len(bp) != len(dp):
+        return [Fail(key='tilted-count', msg='base and array systems differ in atom count')]
+    uu = dp - bp
+    rel = uu @ np.linalg.inv(V)
+    uu = (rel - np.rint(rel)) @ V                 # displacement modulo the array cell
+    x, y = bp @ mh, bp @ nh
+    ys = np.unique(np.round(y, 6))
+    change = []
+    for yy in (ys[ys > 0].min(), ys[ys < 0].max()):
+        sel = np.abs(y - yy) < 1e-5
+        order = np.argsort(x[sel])
+        xs, us = x[sel][order], uu[sel][order].copy()
+        for k in range(1, len(xs)):               # continuity along the plane: undo jumps by whole cell vectors
+            ds = (us[k] - us[k - 1]) @ np.linalg.inv(V)
+            us[k] = us[k - 1] + (ds - np.rint(ds)) @ V
+        A = np.column_stack([xs, np.ones_like(xs)])
+        slope = np.linalg.lstsq(A, us, rcond=None)[0][0]
+        change.append(slope * period)
+    acc = change[1] - change[0]
+    chk.note('atoms-compared', len(bp))
+    if np.linalg.norm(acc - b) > 1e-6 * np.linalg.norm(b):
+        fails.append(Fail(key='tilted-disregistry-accumulation', msg='%s, linear array, sizes %s: the disregistry accumulates to %s over one period along m, '
+                          'the Burgers vector is %s (|ratio| %.6f)' % (label, smult, acc.tolist(), b.tolist(), float(acc @ b / (b @ b)))))
+    return fails
+
 def g_natoms(d, mult):
     return d.rcell.natoms * int(np.prod(mult))
 
@@ -1021,6 +1083,9 @@ def gen():
                 for c in range(len(CENTRES)):
                     for w in range(len(DISREG_W)):
                         yield 'disreg', {'sys': si, 'mn': mi, 'gen': gk, 'centre': c, 'w': w}
+            if mi == 0 and si < len(TILTED):
+                for sz in range(len(TILTED_SIZES)):
+                    yield 'tilted', {'sys': si, 'size': sz}
             if si in LIVE_SYSTEMS and mi in LIVE_MN:
                 yield 'live', {'sys': si, 'mn': mi}
             for kind in range(4):        # list, tuple, list reused, None
